@@ -315,6 +315,12 @@ Definition dispatch_codecs (op : Z) (args : list tok) : value :=
     | Some a => VList (h264_unmarshal_seq (mkH264Pkt a []) ps)
     | None => VBad
     end
+  | 1005, [avc; TInt _; TList ps] =>
+    match t_bool avc with
+    | Some a => VList (h264_unmarshal_seq (mkH264Pkt a []) ps)
+    | None => VBad
+    end
+  | 1307, [TInt _; TList ps] => VList (av1d_seq (mkAv1Dep [] false false false) ps)
   | 1004, [avc; TList plan] =>
     (* the Spec/Rfc6184.v encoder run on the plan, then the receiver model on its packets *)
     match t_bool avc, opt_map t_item plan with
